@@ -197,7 +197,20 @@ def run_cpp(prop, tier, seed, replay=None):
             cmd += ["--stage", s]
         cmd += ["--replay-site", rj["site"]]
     t0 = time.time()
-    p = subprocess.run(cmd, cwd=VERIF)
+    p = subprocess.run(cmd, cwd=VERIF, stderr=subprocess.PIPE, text=True)
+    sys.stderr.write(p.stderr)
+    if p.returncode < 0 or p.returncode == 134:
+        # The harness died on a signal (abort from an exception escaping a noexcept/unchecked library call, SIGFPE,
+        # SIGSEGV ...). Every harness has been run to completion on the unchanged tree, so a crash is behaviour of the
+        # library under test at the stage named last on stderr: report it as a violation, with the stderr tail as replay.
+        stages = re.findall(r"^  stage ([^:]+):", p.stderr, re.M)
+        site = "crash.signal%d.after-stage:%s" % (-p.returncode if p.returncode < 0 else 6, stages[-1] if stages else "<start>")
+        os.makedirs(os.path.join(OUTDIR, "replay"), exist_ok=True)
+        rp = os.path.join(OUTDIR, "replay", "%s-crash.json" % prop)
+        json.dump({"property": prop, "site": site, "tier": tier, "stderr_tail": p.stderr[-3000:],
+                   "cases": [{"site": site, "stage": "", "input": "harness process terminated", "expected": "completes", "got": p.stderr[-300:]}]}, open(rp, "w"), indent=1)
+        print("VIOLATION property=%s replay=%s site=%s (the library call terminated the process: %s)" % (prop, rp, site, p.stderr.strip().splitlines()[-1][:200] if p.stderr.strip() else ""))
+        return 1
     if p.returncode != 0:
         log("HARNESS-ERROR: %s exited with %d" % (exe, p.returncode))
         return 2
